@@ -37,6 +37,8 @@ type Query {
   ratio: Float
   self: Query
   fail: String
+  mustFail: Item!
+  mustFails: [Item!]!
   box(in: Box): String
   ghost: String
   countdown(n: Int): String
@@ -409,6 +411,12 @@ func renderSorted(v interface{}) string {
 
 // Fail always fails.
 func (q *Query) Fail() (string, error) { return "", fmt.Errorf("always fails") }
+
+// MustFail serves a NON-NULL field and always fails with nothing to show: one failure, one error.
+func (q *Query) MustFail() (*Item, error) { return nil, fmt.Errorf("must always fails") }
+
+// MustFails is the same for a non-null list.
+func (q *Query) MustFails() ([]*Item, error) { return nil, fmt.Errorf("musts always fail") }
 
 // Item is bound with @go.
 type Item struct {
